@@ -391,7 +391,7 @@ func runVdrProperty(c *Ctx, prop string) {
 		replies := c.Drv.AskBatch(reqs)
 		// the decidable hypotheses of the theorems (CfgOK, PathKinds, Sep, LinksTop) as the driver
 		// evaluated them on every replayed state
-		hypNames := []string{"CfgOK", "PathKinds", "Sep", "LinksTop"}
+		hypNames := []string{"CfgOK", "PathKinds", "Sep", "LinksTop", "CleanD"}
 		hypBad := map[string]bool{}
 		for i, rep := range replies {
 			j := strings.LastIndex(rep, " hyp=")
